@@ -8,7 +8,7 @@ REQ = ["NewColl", "FromMembers", "FromMembersRefused", "Create", "AddMember", "A
        "CopyColl", "JsonRoundTrip", "FillMember", "NormalizeAll", "NormalizeBins", "Eq"]
 
 
-def run_part(ctx, tier, label="collection", quick_combos=2, quick_budget=40000):
+def run_part(ctx, tier, label="collection", quick_combos=1, quick_budget=40000):
     if tier == "thorough":
         ctx.model_check("MC_Collection_t", dump=False)        # up to three members, one more call: TLC only (a million states)
     _res, g = ctx.model_check("MC_Collection_q", required_actions=REQ)
